@@ -44,7 +44,28 @@ bool FnEmitter::emitIntrinsic(const CallBase& CB, const Function* callee) {
             (PT->isIntegerTy() || PT->isPointerTy() || PT->isFloatingPointTy() || PT->isStructTy()))
           ET = PT;
       }
-      std::string et = ET ? ty(ET) : "uint8_t";
+      // the element may not be larger than what the length expression is known to be a multiple of
+      uint64_t maxElem = 1;
+      {
+        const Value* L = CB.getArgOperand(2);
+        if (auto* BO = dyn_cast<BinaryOperator>(L)) {
+          if (BO->getOpcode() == Instruction::Shl)
+            if (auto* C = dyn_cast<ConstantInt>(BO->getOperand(1))) maxElem = C->getZExtValue() < 6 ? (1ull << C->getZExtValue()) : 64;
+          if (BO->getOpcode() == Instruction::Mul)
+            for (unsigned k = 0; k < 2; ++k)
+              if (auto* C = dyn_cast<ConstantInt>(BO->getOperand(k))) { uint64_t c = C->getZExtValue(); maxElem = c ? (c & (~c + 1)) : 1; }
+        } else {
+          // unknown multiple: trust the element type only if both pointers agree on it
+          Type* P0 = CB.getArgOperand(0)->stripPointerCasts()->getType()->getPointerElementType();
+          Type* P1 = CB.getArgOperand(1)->stripPointerCasts()->getType()->getPointerElementType();
+          if (P0 == P1 && ET) maxElem = T.DL.getTypeAllocSize(ET);
+        }
+      }
+      if (ET && T.DL.getTypeAllocSize(ET) > maxElem) {
+        // pick the widest integer type that fits (struct copies degrade to words/bytes)
+        ET = nullptr;
+      }
+      std::string et = ET ? ty(ET) : (maxElem >= 8 ? "uint64_t" : maxElem >= 4 ? "uint32_t" : maxElem >= 2 ? "uint16_t" : "uint8_t");
       body << "  VF_TYPED_" << (mv ? "MOVE" : "COPY") << "(" << et << ", " << A(0) << ", " << A(1) << ", (uint64_t)" << A(2) << ");\n";
       return true;
     }
